@@ -29,6 +29,7 @@ structure S where
   wrap : Bool := false
   wfr : Bool := false
   itemsSized : Bool := false
+  direct : Bool := false    -- no sending queue and no batcher: export calls run on the callers' goroutines
   tevs : List OtelVerif.C03.Replay.TEv := []    -- reversed: the full trace for the replay through `fire`
   ends : List (Nat × Bool × Bool × Bool) := []   -- (call, failed, permanent, retries were left)
 
@@ -40,6 +41,7 @@ def handler : Handler S where
       match kvNat rest "persistent", kvNat rest "batch", kvNat rest "queue", kvNat rest "retry", kvNat rest "consumers", kvNat rest "maxelapsed" with
       | some p, some b, some _, some r, some nc, some me =>
         ({ s with persistent := p == 1, batch := b, haveCfg := true, retry := r == 1, maxElapsed := me, consumers := nc,
+                  direct := kvNat rest "queue" == some 0 && b == 0,
                   wrap := kvNat rest "wrap" == some 1, wfr := kvNat rest "wfr" == some 1 || kvNat rest "queue" == some 0,
                   itemsSized := kv rest "sizer" == some "items" && kvNat rest "queue" == some 1 }, [])
       | _, _, _, _, _, _ => (s, ["obs bad-op"])
@@ -107,7 +109,8 @@ def handler : Handler S where
     | none =>
       let t := s.evs.reverse
       let v := verdict t
-      let kind := if s.persistent then "persistent" else "memory"
+      let v := if s.direct then { v with openCalls := [] } else v
+      let kind := if s.direct then "direct" else if s.persistent then "persistent" else "memory"
       let und := if s.persistent then lostPersistent t s.stored else v.undrained
       let unrec := if s.persistent then (lostPersistent t s.recovered).filter (fun x => s.stored.contains x) else []
       -- persistent queue: a flight whose last call failed retryably with retries left can only have been ended by the shutdown:
@@ -154,7 +157,7 @@ def handler : Handler S where
       -- the strengthened tie: the recorded trace must be a run of the LTS (hidden steps inferred, every fired label enabled)
       let batching := s.batch != 0
       let pRefine :=
-        if !v.returned || (batching && !s.wrap) then "prop refine=skipped"
+        if !v.returned || (batching && !s.wrap) || s.direct then "prop refine=skipped"
         else
           let tr := s.tevs.reverse
           let rc : OtelVerif.C03.Replay.RCfg :=
